@@ -237,6 +237,17 @@ def check(prog: Program, rep):
         for n in ast.walk(cons_loop):
             if isinstance(n, ast.If) and any(isinstance(b, ast.Raise) for b in n.body):
                 pred = norm(n.test)
+        if pred is None:
+            # `if <edge present>: continue` followed by the raise in the same block is `if not <edge present>: raise`
+            for n in ast.walk(cons_loop):
+                blk = getattr(n, "body", None)
+                if isinstance(n, ast.For) and isinstance(blk, list):
+                    for i_, b in enumerate(blk):
+                        if isinstance(b, ast.Raise) and i_ > 0:
+                            g_ = next((x for x in reversed(blk[:i_]) if isinstance(x, ast.If)), None)
+                            if g_ is not None and not g_.orelse and len(g_.body) == 1 and isinstance(g_.body[0], ast.Continue) and \
+                                    all(isinstance(x, (ast.If, ast.Expr)) for x in blk[:i_]):
+                                pred = norm(ast.UnaryOp(op=ast.Not(), operand=g_.test))
         # a local that holds the edge set of the graph, stored after the edge loop and before the validation (`edge_set = set(G.edges())`),
         # stands for G.edges in the predicate
         if pred is not None:
@@ -279,12 +290,23 @@ def check(prog: Program, rep):
     rep.rule("C20.R2", "n, m, w are computed from the graph after the last add_edge", floor=3)
     last_add = max([c.lineno for c in calls_in(f.node) if isinstance(c.func, ast.Attribute) and c.func.attr == "add_edge"] or [0])
     want = {"n": r"^G\.number_of_nodes\(\)$", "m": r"^G\.number_of_edges\(\)$", "w": r"stDiGraph\(G\)\.get_width\(\)$"}
-    for st in walk_no_nested(f.node):
+    # a local stored once, after the last add_edge and at the top level of the function, stands for its value (`num_edges = G.number_of_edges()`)
+    from rules.common import local_single_defs, substitute_locals
+    _late = {}
+    _lsd_ = local_single_defs(f.node)
+    for st_ in f.node.body:
+        if isinstance(st_, ast.Assign) and len(st_.targets) == 1 and isinstance(st_.targets[0], ast.Name) and st_.targets[0].id in _lsd_ and st_.lineno > last_add:
+            _late[st_.targets[0].id] = st_.value
+    _stores_orig = [st for st in walk_no_nested(f.node)]
+    for st in _stores_orig:
         if isinstance(st, ast.Assign) and isinstance(st.targets[0], ast.Subscript) and norm(st.targets[0].value) == "G.graph" and \
                 isinstance(st.targets[0].slice, ast.Constant) and st.targets[0].slice.value in want:
             k = st.targets[0].slice.value
             key = f"read_graph:stored-{k}"
-            tests_ = [norm(t_) for t_, pol_ in enclosing_tests(f.node, st) if pol_]
+            tests_ = [norm(substitute_locals(t_, _late)) for t_, pol_ in enclosing_tests(f.node, st) if pol_]
+            if isinstance(st.value, ast.Name) and st.value.id in _late:
+                import copy as _cp
+                st = ast.copy_location(ast.Assign(targets=st.targets, value=_cp.deepcopy(_late[st.value.id])), st)
             if st.lineno > last_add and k == "w" and isinstance(st.value, ast.Constant) and st.value.value == 0 and \
                     any(t_.replace(" ", "") in ("G.number_of_edges()==0", "0==G.number_of_edges()", "notG.number_of_edges()") for t_ in tests_):
                 rep.ok("C20.R2", key + ":edgeless", "a block without edges stores width 0 (there is no source-sink graph to measure)", f.loc(st))
